@@ -115,3 +115,33 @@ pub fn cross(toks: &[&str]) -> String {
     }
     format!("ok blocks={} sectors={} containers={}",valid.len(),nsec,labels.len())
 }
+
+/// imgcmp id unit kind path1 path2 : two image files made for the same disk kind hold the same content in every block (unit = po) or
+/// every physical sector (unit = sec); wall-clock fields of the volume header are masked by the caller choosing volumes without them
+pub fn imgcmp(toks: &[&str]) -> String {
+    let unit = toks[2];
+    let mut a = match a2kit::create_img_from_file(toks[4]) { Ok(i) => i, Err(e) => return format!("FAIL {} does not load: {}",toks[4],e) };
+    let mut b = match a2kit::create_img_from_file(toks[5]) { Ok(i) => i, Err(e) => return format!("FAIL {} does not load: {}",toks[5],e) };
+    if unit=="po" && a.byte_capacity()!=b.byte_capacity() { return format!("FAIL capacities differ: {} / {}",a.byte_capacity(),b.byte_capacity()); }
+    let mut n = 0;
+    if unit=="po" {
+        for blk in 0..a.byte_capacity()/512 {
+            let x = a.read_block(a2kit::fs::Block::PO(blk)).map_err(|e| e.to_string());
+            let y = b.read_block(a2kit::fs::Block::PO(blk)).map_err(|e| e.to_string());
+            if x!=y {
+                let nd = match (&x,&y) { (Ok(u),Ok(v)) => u.iter().zip(v.iter()).filter(|(p,q)| p!=q).count(), _ => 0 };
+                return format!("FAIL block {} differs between the two image types ({} bytes differ)",blk,nd);
+            }
+            n += 1;
+        }
+    } else {
+        let g = geom(toks[3]);
+        for [c,h,sec,_] in g.sectors() {
+            let x = a.read_sector(c,h,sec).map_err(|e| e.to_string());
+            let y = b.read_sector(c,h,sec).map_err(|e| e.to_string());
+            if x!=y { return format!("FAIL sector {},{},{} differs between the two image types",c,h,sec); }
+            n += 1;
+        }
+    }
+    format!("ok same units={}",n)
+}
